@@ -22,60 +22,60 @@ CLAIMS = {
             'DESIGN.md §3 C18'),
     'C03': ('Lean 4 theorems: Hamiltonian bookkeeping of concatenation (errors iff documented, one row per distinct operator, coefficients placed per pulse block, identifier mappings, zero / constant fill) on an abstract model; n-pulse algebra: the from-atomic control matrix with cumulative phases and Liouville propagators equals the from-scratch control matrix of the sequenced pulse for a complete basis (all pulse / segment counts), pulse-correlation filter functions sum to the total, regrouping; correspondence on abstract pulses and on atomic data; option x cache-state search',
             'Machine-checked proof (i) on the discrete model of _concatenate_Hamiltonian run against the real function on abstract pulses, and (ii) on the numerical model (regenerated contractions, cm_entry) that concatenation of any list of pulses reproduces the from-scratch control matrix of the sequenced pulse for complete bases, that pulse-correlation contributions are the from-scratch matrices of the individual pulses in place and sum to the total, and that regrouping does not matter; the decision logic of concatenate (options, cache states, frequencies known or not) is covered by the search, which compares every result with a freshly built sequenced pulse.',
-            'The option/cache decision logic of concatenate is validated, not proved; completeness of the basis is a hypothesis (the code now recomputes from scratch for incomplete bases); identifier suffix collisions are an open finding (F26).',
-            'DESIGN.md §5 C03'),
+            'The option/cache decision logic of concatenate is a Lean model of its own (ConcatLogic, theorems C03d: grid soundness, forced calculations never skipped, automatic mode iff, route selection, exception classes) tied by a correspondence that realises abstract inputs with real pulses and observes the route with counting wrappers; completeness of the basis is a hypothesis of the algebraic theorems (the code recomputes from scratch for incomplete bases); identifier suffix collisions are an open finding (F26).',
+            'DESIGN.md §3 C03'),
     'C05': ('Lean 4 theorems (Kronecker algebra over Mathlib): tensor-sum eigen-decomposition satisfies the eigh contract, propagators factorise, control matrix of B (x) 1 in a product basis is sqrt(d_rest) B at the identity column and 0 elsewhere (on the control-matrix model, all masks), full filter-function matrix incl. cross blocks; index link to equivalentPauli; search vs directly built tensor-product pulses over all assignments / cache states / options',
             'Machine-checked proof of the extension rules used by extend for the binary split (one pulse vs the rest of the register) on the same control-matrix model as C01, including that cross-correlation blocks are sqrt(d1 d2) conj(B1_a0) B2_b0 and in general non-zero; the qubit-list parsing and attribute merging of extend are covered by a search that compares extend with the tensor-product pulse built directly for all assignments of 1-3 single/two-qubit pulses to registers of <= 3 (thorough 4) qubits, every cache state and option value.',
             'extend\'s qubit bookkeeping and _merge_attrs/_insert_attrs are validated, not proved; n-fold extension follows from the binary rule plus C06 but is not stated as one theorem.',
-            'DESIGN.md §5 C05'),
+            'DESIGN.md §3 C05'),
     'C06': ('Lean 4 theorems: reindexing by a permutation of tensor factors is a *-algebra isomorphism (eigen-decomposition, propagators, Liouville representation, control matrix, filter function carried over by the index permutation = remapPauli), argsort bookkeeping of identifiers, composition and identity laws; search over all permutations',
             'Machine-checked proof that every cached attribute remap carries over is the reindexed one and equals the attribute of the rebuilt pulse, that the Pauli index permutation is the one computed by remap_pauli_basis_elements (model compared with the real function for all permutations n <= 4), that the identifier re-sorting permutes rows as claimed and that remaps compose; search: all permutations for n = 2,3 (4), identifier maps that change the sort order, non-traceless operators, every cache state, vs the rebuilt permuted pulse.',
             'identifier-mapping dictionaries of remap are validated by search; non-Pauli / incomplete bases: remap keeps the cached filter function, wrong only for incomplete bases not invariant under the permutation (noted in DESIGN).',
-            'DESIGN.md §5 C06'),
+            'DESIGN.md §3 C06'),
     'C11': ('Lean 4 theorems on the gradient kernels: A_mat = integral of e^{ixs} with truncation bound and finite value on degenerate pairs, every branch of _derivative_integral = nested integral with explicit error bounds (and the grey-zone counterexample), filter-function derivative = 2 Re sum conj(B) dB is the derivative, linearity/slicing of the infidelity derivative; bit-pattern correspondence; finite-difference search',
             'Machine-checked proof of the integral kernels, of the filter-function derivative formula (HasDerivAt) and of the selection/integration algebra; the perturbative assembly is tied by correspondence of the kernels and validated end to end by 4th-order finite differences of the package\'s own filter function and infidelity on pulses with idle/degenerate segments, zero amplitudes, identifier subsets and sensitivity derivatives.',
             'Partial: the assembly of the control-matrix derivative is validated, not proved. Open findings F12 (division by a zero sensitivity) and F30 (grey zone of the absolute masks).',
-            'DESIGN.md §5 C11'),
+            'DESIGN.md §3 C11'),
     'C14': ('Lean 4 theorems: Pauli basis for every n and GGM basis for every d are orthonormal, Hermitian, complete, identity first, rest traceless; Kronecker closure; expansion is the inverse of reconstruction, real for Hermitian M, closed-form GGM expansion = generic; from_partial properties under the null_space contract; flags sound; models executed against the package exactly',
             'Machine-checked proof for all n / d of the constructed bases and of the expansion identities on executable models that reproduce Basis.pauli / Basis.ggm / expand / ggm_expand / the flags exactly (1e-12) on the compared inputs; from_partial is proved correct given the contract of scipy.linalg.null_space; search checks Gram matrices, ranks, containment, labels, rejections and flags near their tolerances.',
             'null_space and matrix_rank are oracles. Open findings pinned by the repository\'s own tests: F15 (label shift) and F16 (isorthonorm of a single unnormalised element).',
-            'DESIGN.md §5 C14'),
+            'DESIGN.md §3 C14'),
     'C17': ('Lean 4 theorems on a discrete model of _parse_Hamiltonian / _join_equal_segments / __eq__ / slicing: sorted storage keeps each operator with its coefficients and identifier, default identifiers distinct for every count, equality is an equivalence that holds iff the merged descriptions denote the same step functions, detects every single-feature difference, slices are sub-sequences; correspondence on abstract pulses; search on real pulses',
             'Machine-checked proof on the discrete model, which is run against the real functions on thousands of abstract pulses (operators = fixed distinct matrices, integer data) with exact agreement; search on random real pulses: one-feature variants are unequal, re-segmentations equal, symmetry / transitivity, equal pulses have equal filter functions, slices, deep copies share no memory.',
             'np.allclose on durations is modelled as exact equality (so transitivity is proved for exact comparison); zero-length segments are not merged by __eq__ (stated in the theorems); Python object aliasing is measured, not proved.',
-            'DESIGN.md §5 C17'),
+            'DESIGN.md §3 C17'),
     'C02': ('Lean 4 theorems over the executable model of numeric.diagonalize / PulseSequence.t, tau, propagator_at_arb_t: spectral form = matrix exponential under the eigh contract, cumulative propagators = time-ordered product, unitarity, times = cumulative sums (also for appended / tiled durations), arbitrary-time propagator incl. both-sided edge behaviour; regenerated contractions; correspondence',
             'Machine-checked proof for every dimension, segment count and duration that, given an eigendecomposition satisfying the eigh contract, the modelled propagators are exp(-i H dt) products, unitary, start at 1, end in the total propagator, that times/tau are cumulative sums (additive under concatenation, G-fold under tiling) and that propagator_at_arb_t selects the right segment and returns exp(-i H_g (t - t_g)) Q_g with left and right limits at every edge; the model runs on the package\'s own eigh output and is compared with the package at every edge, inside segments and beyond tau; the search checks the eigh contract residuals and compares with scipy expm.',
             'LAPACK eigh is an oracle (contract measured, not proved); floating point not modelled; times of pulses produced by extend/remap are covered by search only.',
-            'DESIGN.md §5 C02'),
+            'DESIGN.md §3 C02'),
     'C10': ('Lean 4 theorems: every branch of the second-order kernel equals the nested integral for all real frequencies and splittings (exact arithmetic), limit/bound between branches, integration-by-parts identity, assembly = documented sum, F2 + F2^dagger = F1 end to end for the model; source pins; bit-pattern correspondence; known finding F9 (floating-point cancellation near resonances)',
             'Machine-checked proof that the modelled _second_order_integral equals the documented nested integral in all three cases for every real input, that the modelled assembly of calculate_second_order_filter_function computes the documented segment sum and satisfies F2_ab,kl + conj F2_ba,lk = conj(B_ak) B_bl; the model is tied to numeric.py by pins of the function bodies / masks, the regenerated contractions and a bit-pattern correspondence run (bit-identical kernel); the search compares the package with an independent, cancellation-free evaluation of the nested integral, checks F2+F2^dagger=F1, cached vs uncached intermediates and frequency shifts.',
             'Exact-arithmetic theorems cannot see the catastrophic cancellation close to (not on) resonances: that genuine defect is found by the search and listed as open known finding F9.',
-            'DESIGN.md §5 C10'),
+            'DESIGN.md §3 C10'),
     'C12': ('Lean 4 theorems on the control-matrix model: invariance under per-segment energy offsets (with arbitrary unit phases on the propagators), covariance under change of basis B\' = B O^T and invariance of the fidelity filter function for isometric O, invariance under conjugation of all operators by one unitary; search on the implementation',
             'Machine-checked proof, for all dimensions / segments / frequencies and both branches of the small-denominator guard, that the modelled control matrix is unchanged by energy offsets and frame changes and transforms linearly under a change of basis so that the fidelity filter function is basis independent; search compares pairs of bases (GGM, Pauli, rotated, completed-from-partial, non-traceless), offsets up to 1e6 and random frames on filter functions, infidelities, error transfer matrices and process fidelity.',
             'Independence of the infidelity / error transfer matrix of the basis rests on C08/C09 theorems plus search; expm is an oracle.',
-            'DESIGN.md §5 C12'),
+            'DESIGN.md §3 C12'),
     'C13': ('Lean 4 theorems on the control-matrix model: splitting identity of the segment integral and of whole segments (exact in the closed-form branch, explicit 2e-7*duration bound otherwise), zero-duration segments contribute nothing, operator permutation = row permutation, time-unit covariance for the dimensionless guard read from source (and its failure for an absolute guard), linearity; search on the implementation',
             'Machine-checked proof for all pulses that re-segmentation, zero-length segments and operator order leave the modelled control matrix unchanged (up to the proved truncation bound), that rescaling the time unit by any lambda != 0 multiplies it by lambda and the filter function by lambda^2 for the guard shape the translator reads from numeric.py on every run, and that it is linear in noise operators and sensitivities; metamorphic search on the real package with lambda = 1e-9..1e9.',
             'Floating point not modelled; infidelity-level statements rest on C08.',
-            'DESIGN.md §5 C13'),
+            'DESIGN.md §3 C13'),
     'C16': ('Lean 4 theorems (core Lean, index arithmetic): admissible position range, insert / merge / transpose produce exactly the numpy.insert / permutation order for all chains and positions, dims bookkeeping harmless, mixed-radix bijection, Pauli index maps for all n; exhaustive correspondence and product comparison on the implementation',
             'Machine-checked proof for all chain lengths, ranks, positions and permutations that the modelled tensor_insert / tensor_merge / tensor_transpose yield the documented factor order or the documented exception, and that equivalent/remap Pauli index maps are the row-major index maps they should be; the model interprets the subscripts exactly as util.py builds them and is compared with the real functions (product of the predicted factor order vs actual result, exception classes) over an exhaustive enumeration of small chains with heterogeneous dimensions, plus an independent numpy.insert oracle.',
             'numpy einsum/reshape semantics are trusted; chains beyond 52 subscript letters are outside the model.',
-            'DESIGN.md §5 C16'),
+            'DESIGN.md §3 C16'),
     'C04': ('Lean 4 theorems (both branches of the periodic control matrix equal the finite geometric series for every G>=1, every frequency, every tolerance; equality with the repetition sum) over the executable model + source pin of calculate_control_matrix_periodic + correspondence',
             'Machine-checked proof that the solve branch (under the contract of linalg.solve and det != 0) and the explicit-sum fallback of calculate_control_matrix_periodic both equal sum_{g<G} T^g, and that B times that sum is the repetition sum formed by concatenating G copies; the model is tied to numeric.py by a translator pin of the function body, the regenerated contraction of calculate_control_matrix_from_atomic and a correspondence run at singular and near-singular frequencies; failing-input search compares concatenate_periodic with G-fold concatenation and with the tiled pulse from scratch.',
             'linalg.solve/det are oracles with stated contracts; floating-point conditioning near singular frequencies is measured (1e-6), not proved; equality of the repetition sum with the from-scratch control matrix of the tiled pulse rests on C03/C15 (liouville_transfer, liou_mul).',
-            'DESIGN.md §5 C04'),
+            'DESIGN.md §3 C04'),
     'C15': ('Lean 4 theorems from the completeness (swap) identity: Liouville entries, realness, L(1)=1, multiplicativity, orthogonality, transfer lemma, Choi matrix of a unitary is rank-one PSD, transposition is not CP, verdict soundness; model = regenerated contractions + expand; correspondence',
             'Machine-checked proof, for every dimension, every complete orthonormal Hermitian basis and every (stack element) unitary, that the modelled liouville_representation has entries tr(C_i U C_j U^dagger), is real, maps 1 to 1, is multiplicative and orthogonal, that the .real cast loses nothing, that liouville_to_choi of a unitary channel is v v^dagger (PSD) and that of transposition has a negative direction; tie: regenerated einsum definitions, pinned wiring/bodies of the four functions, correspondence at doubles; search covers the d>12 closed-form path, stacks, pulses and CP/cCP verdicts on Kraus/Lindblad data.',
             'eigh of the Choi matrix is an oracle; the closed-form GGM expansion for d>12 and the Lindblad cCP direction are validated by search only.',
-            'DESIGN.md §5 C15'),
+            'DESIGN.md §3 C15'),
     'C19': ('Lean 4 theorems: the shipped closed forms FID, SE, PDD (both parities), CPMG (both parities), UDD and CDD (induction on the level) equal |y|^2/2 of the sign-flip sequence for every order and every z away from removable singularities; model executed for correspondence with analytic.py',
             'Machine-checked proof over the reals that each function of analytic.py (modelled operation by operation and run against the Python on the same inputs) equals the dephasing filter function times omega^2 of the ideal sign-flip sequence with the family\'s flip times, for all n (g); the search compares the numerical engine on exact sign-flip pulses and on finite-width pi pulses with the shipped expressions.',
             'The identification of the package filter function for B=sigma_z/2, H_c=0 with |y|^2/(2 omega^2) is validated numerically; Float sin/cos/tan vs real functions is not proved.',
-            'DESIGN.md §5 C19'),
+            'DESIGN.md §3 C19'),
     'C20': ('Lean 4 theorems over executable validators that mirror the order of the checks in the source (valid => accepted; rejected <=> not valid; every rejection explained by a catalogued corruption of the reported class) + options table regenerated from the decorators + model-vs-implementation correspondence on abstract inputs + corruption search on real inputs',
             'Machine-checked proof, for all abstract inputs (operator kinds and shapes, coefficient lengths, identifiers, durations, bases, cache / frequency states, qubit assignments), that the modelled validators of the constructors, parse_spectrum, identifier and option look-up, Basis, slicing, concatenate, extend / remap, the pulse-correlation getters and the small argument checks accept exactly the documented domain and raise the documented class otherwise (under explicit regularity hypotheses that exclude the recorded disagreements between code and documentation); the model is run against the real functions on thousands of structured requests per run (exception class and parsed output), the option table is regenerated from the decorators, and a catalogue of single corruptions / untouched valid inputs is applied to real random inputs.',
             'Arrays are abstracted to shapes and byte/value identities; numpy shape rules are validated by the correspondence; the theorems hold under HamRegular/ArgsRegular/... hypotheses, the excluded inputs are recorded findings.',
@@ -83,7 +83,7 @@ CLAIMS = {
     'C07': ('Lean 4 invariant proof over all finite histories of public calls on a pulse and its copies (cache state machine with cleanup sets regenerated from source) + model-vs-implementation correspondence on seeded histories',
             'Machine-checked proof (Lean 4 kernel, core only) that every public operation preserves cache coherence, that in every reachable state a request for grid g returns a value computed for exactly g from ingredients of g and never an error, and that the answer equals the one of a fresh pulse; the state machine is tied to pulse_sequence.py by the regenerated cleanup/alias/intermediates sets and by running the model and the real objects on the same histories, comparing the 19 cache fields after every call; every returned array is compared with a freshly constructed pulse.',
             'Cached arrays are abstracted to the grid they were computed for; Python aliasing of arrays between copies and the numerical kernels themselves are covered by measurement (comparison with fresh pulses), not by the theorem.',
-            'DESIGN.md §5 C07'),
+            'DESIGN.md §3 C07'),
     'C01': ('Lean 4 theorems over the executable model (exact segment integral, truncation bound '
             'with the guard read from source, filter-function algebra) + translator-regenerated '
             'einsum/guard definitions + model-vs-implementation correspondence',
@@ -96,7 +96,7 @@ CLAIMS = {
             'produces the replay when an obligation or the tie breaks.',
             'Theorems are over exact real/complex arithmetic and the model; IEEE rounding, LAPACK '
             'eigh and numpy broadcasting are measured by the correspondence/search, not proved.',
-            'DESIGN.md §5 C01'),
+            'DESIGN.md §3 C01'),
 }
 NOT_YET = 'not claimed yet in this round: model/theorems for this property are still being built'
 
